@@ -17,6 +17,7 @@ mod verif_queuing {
     static HANDLED_KIND: AtomicUsize = AtomicUsize::new(99);
     static WRAPPED_OUTCOME: AtomicUsize = AtomicUsize::new(0); // 0 ok, k+1 => Err(kind k)
     static FLUSHED: AtomicUsize = AtomicUsize::new(0);
+    static OK_LEN: AtomicUsize = AtomicUsize::new(1);          // byte count PlainSink reports for an accepted metric
 
     fn kind_of(i: usize) -> ErrorKind { match i { 0 => ErrorKind::Interrupted, 1 => ErrorKind::TimedOut, 2 => ErrorKind::WouldBlock, _ => ErrorKind::Other } }
     fn kind_index(k: ErrorKind) -> usize { match k { ErrorKind::Interrupted => 0, ErrorKind::TimedOut => 1, ErrorKind::WouldBlock => 2, _ => 3 } }
@@ -291,7 +292,7 @@ mod verif_queuing {
         std::mem::forget(w);
     }
 
-    //@H name=c11_sentinel_active props=C11,C20 bound="2 queued metrics" fn=Sentinel::drop :: a sentinel dropped while active (the thread is unwinding from a panic): panics+1 and exactly one restart of the SAME worker, which goes on delivering the queued metrics in order
+    //@H name=c11_sentinel_active props=C08,C09,C11,C20 bound="2 queued metrics" fn=Sentinel::drop :: a sentinel dropped while active (the thread is unwinding from a panic): panics+1 and exactly one restart of the SAME worker, which goes on delivering the queued metrics in order
     #[kani::proof]
     #[kani::unwind(6)]
     fn c11_sentinel_active() {
@@ -306,8 +307,8 @@ mod verif_queuing {
             drop(s);
         }
         assert!(w.stats.panics() == p + 1, "[C11] the reported panic count grows by one per panic");
-        assert!(SPAWNED.load(Ordering::SeqCst) == before + 1, "[C11] exactly one replacement thread is started per panic");
-        assert!(DELIVERED.load(Ordering::SeqCst) == 2 && ORDER.load(Ordering::SeqCst) == 8 + 2, "[C11] the replacement thread serves the same queue: the other accepted metrics are delivered once, in order");
+        assert!(SPAWNED.load(Ordering::SeqCst) == before + 1, "[C08,C09,C11] exactly one replacement thread is started per panic, whether or not any handle is still alive");
+        assert!(DELIVERED.load(Ordering::SeqCst) == 2 && ORDER.load(Ordering::SeqCst) == 8 + 2, "[C08,C09,C11] the replacement thread serves the same queue: the other accepted metrics are delivered once, in order");
         kani::cover!(true, "end");
         std::mem::forget(w);
     }
@@ -329,7 +330,7 @@ mod verif_queuing {
         std::mem::forget(w);
     }
 
-    //@H name=c11_panic_while_stop_pending props=C09,C11,C20 bound="capacity 2, full queue" fn=Sentinel::drop + Worker::run :: a panic while a stop is pending on a FULL queue (no marker could be queued): the restarted worker still delivers what is left and then ends
+    //@H name=c11_panic_while_stop_pending props=C08,C09,C11,C20 bound="capacity 2, full queue" fn=Sentinel::drop + Worker::run :: a panic while a stop is pending on a FULL queue (no marker could be queued): the restarted worker still delivers what is left and then ends
     #[kani::proof]
     #[kani::unwind(6)]
     fn c11_panic_while_stop_pending() {
@@ -339,7 +340,7 @@ mod verif_queuing {
         let _ = w.receiver.try_recv();              // the thread took metric "1" and panicked inside the wrapped sink
         w.stats.incr_drained();
         { let s = Sentinel::new(&w); drop(s); }     // unwinding drops the active sentinel
-        assert!(DELIVERED.load(Ordering::SeqCst) == 1 && ORDER.load(Ordering::SeqCst) == 2, "[C11] only the panicking metric is consumed; the metric behind it is still delivered");
+        assert!(DELIVERED.load(Ordering::SeqCst) == 1 && ORDER.load(Ordering::SeqCst) == 2, "[C08,C09,C11] only the panicking metric is consumed; the metric behind it is still delivered although every handle is gone");
         assert!(w.stopped.load(Ordering::SeqCst) && qlen(&w) == 0 && WOULD_BLOCK.load(Ordering::SeqCst) == 0, "[C09] the pending stop still takes effect after the restart: the thread ends instead of parking in recv()");
         assert!(w.stats.panics() == 1, "[C11] one panic counted");
         kani::cover!(true, "end");
@@ -368,7 +369,7 @@ mod verif_queuing {
     impl MetricSink for PlainSink {
         fn emit(&self, m: &str) -> io::Result<usize> {
             record(m);
-            match WRAPPED_OUTCOME.load(Ordering::SeqCst) { 0 => Ok(m.len()), k => Err(io::Error::from(kind_of(k - 1))) }
+            match WRAPPED_OUTCOME.load(Ordering::SeqCst) { 0 => Ok(OK_LEN.load(Ordering::SeqCst)), k => Err(io::Error::from(kind_of(k - 1))) }
         }
         fn flush(&self) -> io::Result<()> { FLUSHED.fetch_add(1, Ordering::SeqCst); Ok(()) }
         fn stats(&self) -> SinkStats { SinkStats { bytes_sent: 11, packets_sent: 22, bytes_dropped: 33, packets_dropped: 44 } }
@@ -392,7 +393,7 @@ mod verif_queuing {
         std::mem::forget(b); std::mem::forget(d);
     }
 
-    //@H name=c16_handler_on_error props=C16,C20 fn=QueuingMetricSinkBuilder::with_error_handler,with_capacity,build (task closure) :: the task built by build(): the wrapped sink fails => the configured handler is invoked exactly once with that error before the task returns (handler configured BEFORE the capacity)
+    //@H name=c16_handler_on_error props=C08,C15,C16,C20 fn=QueuingMetricSinkBuilder::with_error_handler,with_capacity,build (task closure) :: the task built by build(): the wrapped sink fails => the configured handler is invoked exactly once with that error before the task returns (handler configured BEFORE the capacity)
     #[kani::proof]
     #[kani::unwind(6)]
     fn c16_handler_on_error() {
@@ -401,7 +402,7 @@ mod verif_queuing {
         WRAPPED_OUTCOME.store(k + 1, Ordering::SeqCst);
         let q = QueuingMetricSinkBuilder::new().with_error_handler(|e: io::Error| handler(e)).with_capacity(2).build(PlainSink);
         (q.worker.task)(String::from("1"));
-        assert!(DELIVERED.load(Ordering::SeqCst) == 1, "[C08] the task hands the metric to the wrapped sink exactly once");
+        assert!(DELIVERED.load(Ordering::SeqCst) == 1, "[C08,C15,C16] the task hands the metric to the wrapped sink exactly once, also when the sink fails (no retry: drained counts hand-overs)");
         assert!(HANDLED.load(Ordering::SeqCst) == 1, "[C16] the handler is invoked exactly once per wrapped-sink failure, before the next metric is processed");
         assert!(HANDLED_KIND.load(Ordering::SeqCst) == k, "[C16] the handler receives the wrapped sink's own error");
         assert!(q.worker.sender.inner.cap == Some(2), "[C10] the configured capacity reaches the queue");
@@ -422,46 +423,48 @@ mod verif_queuing {
         std::mem::forget(q);
     }
 
-    //@H name=c16_handler_not_on_ok props=C16,C20 fn=QueuingMetricSinkBuilder::build (task closure) :: the handler is never invoked for a metric the wrapped sink accepted
+    //@H name=c16_handler_not_on_ok props=C08,C16,C20 fn=QueuingMetricSinkBuilder::build (task closure) :: the handler is never invoked for a metric the wrapped sink accepted
     #[kani::proof]
     #[kani::unwind(6)]
     fn c16_handler_not_on_ok() {
         WRAPPED_OUTCOME.store(0, Ordering::SeqCst);
+        OK_LEN.store(kani::any(), Ordering::SeqCst);      // any byte count, 0 included: Ok is Ok
         let q = QueuingMetricSinkBuilder::new().with_error_handler(|e: io::Error| handler(e)).build(PlainSink);
         (q.worker.task)(String::from("1"));
-        assert!(DELIVERED.load(Ordering::SeqCst) == 1 && HANDLED.load(Ordering::SeqCst) == 0, "[C16] the handler is never invoked for a metric the wrapped sink accepted");
+        assert!(DELIVERED.load(Ordering::SeqCst) == 1 && HANDLED.load(Ordering::SeqCst) == 0, "[C08,C16] a metric the wrapped sink accepted (whatever byte count it reports) is handed over once and the handler is never invoked for it");
         assert!(q.worker.sender.inner.cap.is_none(), "[C10] without a configured capacity the queue is unbounded");
         kani::cover!(true, "end");
         std::mem::forget(q);
     }
 
-    //@H name=c16_no_handler props=C16,C20 fn=QueuingMetricSinkBuilder::build (task closure) :: without a handler the wrapped sink's error is discarded and the task returns normally
+    //@H name=c16_no_handler props=C08,C15,C16,C20 fn=QueuingMetricSinkBuilder::build (task closure) :: without a handler the wrapped sink's error is discarded and the task returns normally
     #[kani::proof]
     #[kani::unwind(6)]
     fn c16_no_handler() {
         WRAPPED_OUTCOME.store(1, Ordering::SeqCst);
         let q = QueuingMetricSink::from(PlainSink);
         (q.worker.task)(String::from("1"));
-        assert!(DELIVERED.load(Ordering::SeqCst) == 1 && HANDLED.load(Ordering::SeqCst) == 0, "[C16] without a handler the error is discarded; nothing surfaces");
+        assert!(DELIVERED.load(Ordering::SeqCst) == 1 && HANDLED.load(Ordering::SeqCst) == 0, "[C08,C15,C16] without a handler the error is discarded after ONE hand-over; nothing surfaces");
         kani::cover!(true, "end");
         std::mem::forget(q);
     }
 
-    //@H name=c06_flush_stats_delegate props=C06,C14,C20 fn=QueuingMetricSink::flush,stats :: flush and stats of the queuing sink are exactly those of the wrapped sink
+    //@H name=c06_flush_stats_delegate props=C06,C08,C10,C12,C14,C20 bound="1 queued metric" fn=QueuingMetricSink::flush,stats :: flush and stats of the queuing sink are exactly those of the wrapped sink; neither consumes the queue nor runs the wrapped emit on the caller thread
     #[kani::proof]
     #[kani::unwind(6)]
     fn c06_flush_stats_delegate() {
         let w = recording_worker(None);
+        prefill(&w, 1);
         let q = QueuingMetricSink { worker: w.clone(), sink: Arc::new(PlainSink), _stopper: Arc::new(WorkerStopper { worker: w.clone() }) };
         assert!(q.flush().is_ok() && FLUSHED.load(Ordering::SeqCst) == 1, "[C06] flushing through the queuing wrapper flushes the wrapped sink exactly once");
         let st = q.stats();
         assert!(st.bytes_sent == 11 && st.packets_sent == 22 && st.bytes_dropped == 33 && st.packets_dropped == 44, "[C14] the figures are identical when read through a wrapping queuing sink");
-        assert!(DELIVERED.load(Ordering::SeqCst) == 0, "[C10] neither runs the wrapped sink's emit");
+        assert!(DELIVERED.load(Ordering::SeqCst) == 0 && qlen(&w) == 1 && w.stats.drained() == 0, "[C08,C10,C12] neither flush nor stats consumes the queue or runs the wrapped sink's emit on the caller's thread: queued metrics are delivered by the single background thread only");
         kani::cover!(true, "end");
         std::mem::forget(q); std::mem::forget(w);
     }
 
-    //@H name=c08_clone_drop_emit props=C08,C09,C20 bound="history: clone, drop clone, emit on original, worker resumes" fn=QueuingMetricSink::clone,drop,emit :: dropping a clone while another handle is alive does not stop the worker: a metric accepted afterwards on the live handle is still delivered
+    //@H name=c08_clone_drop_emit props=C08,C09,C10,C20 bound="history: clone, drop clone, emit on original, worker resumes" fn=QueuingMetricSink::clone,drop,emit :: dropping a clone while another handle is alive does not stop the worker: a metric accepted afterwards on the live handle is still delivered
     #[kani::proof]
     #[kani::unwind(6)]
     fn c08_clone_drop_emit() {
